@@ -75,4 +75,10 @@ CHECKS = {
                              "a non-reversible toggle may or may not print its default"],
                 explanation="declarations (single item over the full attribute product; 2-3 items over groups, creation orders, name "
                             "permutations) x 7 target streams; differential oracle across streams + structural parse-back of the text"),
+    "C13": parser_check("C13", "27 declaration events (declare 3 kinds x 2 names x parser|g1|g2, short_name with valid/invalid/changed letters, "
+                               "MOVE of the heap-allocated parser) - every history up to depth d, then BFS to a fixpoint de-duplicated on the "
+                               "reference state; step-by-step agreement with the reference map name -> (kind, group, short), identical-object "
+                               "check for re-declarations, and probe parses of every spelling at every state; ASan watches the group's "
+                               "back-reference after MOVE",
+                        ["BFS de-duplication assumes behaviour depends only on the reference state and the moved flag (declaration order only affects the usage text)"]),
 }
